@@ -198,6 +198,7 @@ class Spec:
         st.dead = False
         st.resv = set()     # client role: promised streams whose response HEADERS have not arrived yet
         st.npush = 0
+        st.badack = False
         st.stuck = {}       # sid -> kind of the action after which the stream first had nothing of its own outstanding and a window <= 0
         if self.zero:
             for lab in ("iws:0", "rxack"):
@@ -215,7 +216,7 @@ class Spec:
         return fingerprint(st.h.conn, st.Ac, st.acked_iws, tuple(st.pending), tuple(sorted(st.As.items())),
                            tuple(sorted(st.out.items())), tuple(sorted(st.credit.items())), st.auto,
                            tuple(sorted(st.reset)), tuple(sorted(st.ended)), st.nstreams, st.dead,
-                           tuple(sorted(st.stuck.items())), tuple(sorted(st.resv)), st.npush)
+                           tuple(sorted(st.stuck.items())), tuple(sorted(st.resv)), st.npush, st.badack)
 
     def actions(self, st):
         if st.dead:
@@ -245,6 +246,9 @@ class Spec:
                     acts.append("ack:%d:half" % sid)
                 if st.out[sid] > 2000:
                     acts.append("ack:%d:2000" % sid)      # more than the 1024-byte threshold, far less than half a window
+        if any(v > 0 for v in st.out.values()) and not st.badack:
+            # everything outstanding acknowledged on a stream id that was never used: refused - and nothing is credited
+            acts.append("ackbad:101")
         for sid in sorted(st.reset):
             for L in ("1", "fill"):
                 acts.append("rdata:%d:%s" % (sid, L))
@@ -401,6 +405,14 @@ class Spec:
             if not sent:
                 return Step("data-not-possible", viols, prune=True)
             out = parts[0]
+        elif parts[0] == "ackbad":
+            st.badack = True
+            n = sum(v for v in st.out.values() if v > 0)
+            o = h.api("acknowledge_received_data", n, int(parts[1]))
+            if o.kind == "ok" or o.raw:
+                bad("ack-on-unused-stream-had-an-effect", "acknowledge_received_data(%d, %s) on a never-used stream -> %s" % (n, parts[1], o.brief()))
+                st.dead = True
+                return Step("ackbad-accepted", viols, prune=True)
         elif parts[0] == "ack":
             sid = int(parts[1])
             n = st.out[sid] if parts[2] == "all" else (2000 if parts[2] == "2000" else st.out[sid] // 2)
